@@ -61,6 +61,13 @@ ATOMS_MORE = [
     ("or-chain", ["b = x > 1 or y > 1 or x == y"]),
     ("and-chain", ["b = x >= 0 and y > 0 and x != y"]),
     ("mixed-bool-chain", ["b = x > 1 or y > 1 and x == 0 or b"]),
+    # several same-typed PLACES of one struct / tuple live across a branch or loop, first used in a different
+    # order on each path (block rows are sorted by place, so a wrong order swaps equal-typed values silently)
+    ("struct-fields-live-across-branch", ["s = P(x, y)", "if b:", "    x = s.b - s.a", "else:", "    x = s.a * 10 + s.b", "y = s.a - y"]),
+    ("struct-fields-live-across-branch", ["s = P(x, y)", "if x < y:", "    s.a = s.b + 1", "else:", "    s.b = s.a * 3", "x = s.a * 10 + s.b"]),
+    ("tuple-elems-live-across-branch", ["t = (x, y)", "if b:", "    x = t[1] - t[0]", "else:", "    x = t[0] * 10 + t[1]", "y = t[0] - y"]),
+    ("struct-fields-live-across-loop", ["s = P(x, y)", "while x < 3:", "    x += s.b - s.a + 1", "    s.a = s.a - 1", "y = s.a * 10 + s.b"]),
+    ("two-structs-live-across-branch", ["s = P(x, y)", "s2 = P(y, x + 1)", "if b:", "    x = s2.a - s.b", "else:", "    x = s.b * 10 + s2.a", "y = s.a - s2.b"]),
 ]
 LOOP_I = ("loopvar", ["x += i"])
 LOOP_E = ("loopvar", ["y += e"])
@@ -208,7 +215,12 @@ def eval_program(item):
             continue
         r = hugrvm.run(h, "main", [hugrvm.to_vm(x), hugrvm.to_vm(y), b], step_budget=300000)
         res["runs"] += 1
-        if r.status in ("unsupported", "invariant", "budget"):
+        if r.status == "budget":
+            # CPython finished within 3000 steps; the compiled program is still running after 300000
+            res["dis"] = {"input": [x, y, b], "python": [st, val, _norm_trace(trace)],
+                          "guppy": ["does-not-terminate-within-100x-python-steps", None, _norm_trace(r.events)[:12]]}
+            return res
+        if r.status in ("unsupported", "invariant"):
             res["harness"] = f"{r.status}: {r.detail}"
             return res
         want = _norm_trace(trace)
